@@ -228,6 +228,7 @@ pub fn gen_package(ch: &Ch, mod_slots: usize) -> GenPkg {
     2 => exports.push(("./c".to_string(), "./c.ts".to_string())),
     _ => {}
   }
+  let workspace = ch.choose("package_is_a_workspace_member", 2) == 1;
   GenPkg {
     pkg: FcPackage {
       name: "@s/a".into(),
@@ -241,12 +242,14 @@ pub fn gen_package(ch: &Ch, mod_slots: usize) -> GenPkg {
         ("/leaf.ts".into(), LEAF_SRC.to_string()),
       ],
       exports,
+      workspace,
     },
     dep: FcPackage {
       name: "@s/b".into(),
       version: "1.0.0".into(),
       files: vec![("/mod.ts".into(), DEP_SRC.to_string())],
       exports: vec![(".".to_string(), "./mod.ts".to_string())],
+      workspace: false,
     },
     unused_markers: unused,
     decl_names,
